@@ -420,8 +420,8 @@ pub fn gen_lists(r: &mut Rng, env: &Env) -> ListState {
     ListState { sets }
 }
 
-pub const LIST_NAMES: [&str; 8] = [
-    "a", "abc", "x.y", "l_1", "0", "9.z_", "office.ips", "long_name.with.dots_0",
+pub const LIST_NAMES: [&str; 11] = [
+    "a", "abc", "x.y", "l_1", "0", "9.z_", "office.ips", "long_name.with.dots_0", "a..b", "x_1...y.z", "_",
 ];
 
 // ---------------------------------------------------------------------------
